@@ -316,3 +316,9 @@ def run(ctx):
                    "From<Value> for %s tests `len == %d` on a length taken after %d bytes were already consumed from the cursor: no accepted form has %d bytes, so the field guarded by this test (microseconds) is never decoded" % (tyname, K, c, K + c),
                    fn=b.path, construct="remaining-length-test", where=b.where(blk), key_extra={"K": K, "consumed": c})
         ctx.floor("C08.length-forms", "length tests in the %s converter" % tyname, nlen, 1)
+
+    # what the shim is handed is what the reader reassembled: the inbound reassembly clauses (C01's rules: window
+    # invariant, parse-before-wait, short-is-not-error, framing constants) are part of `verbatim` / `exactly what the client sent`
+    import rules.C01 as C01
+    C01.run(ctx, configs=["tls"])
+
